@@ -1,7 +1,10 @@
 (* Theorems about Model/Dscore.v (property C10), part 3: the pinned code's
    Anderson-Darling p-value 1 - AD(n, A2) leaves [0,1] (interval arithmetic on
-   the real-number model of AnDarl.c), and binary64 witnesses of the two other
-   repaired defects. *)
+   the real-number model of AnDarl.c), and the tactics of the E3 correspondence
+   files.  This file needs coq-interval (Flocq, Coquelicot, ...); it is built
+   and kernel-checked by coqc on every run as an extra target, but kept OUT of
+   the closure of Props/C10.v so that the thorough tier's coqchk of that
+   closure stays affordable. *)
 From Coq Require Import ZArith Bool List Reals Lra Lia Permutation Sorted.
 From Interval Require Import Tactic.
 From Hy Require Import Base.Num Gen.Consts Gen.ConstsC10 Model.Dscore
@@ -59,29 +62,6 @@ Proof.
   pose proof (AD10_negative _ ad_stat_midpoints10_bounds). lra.
 Qed.
 
-(* ---- binary64 witnesses (evaluated by vm_compute on the F64 instance) ---- *)
-From Coq Require Import PrimFloat.
-
-(* pinned pit(random=False): 11 members all below the observation give
-   percentileofscore/100 = 1.0000000000000002 *)
-Definition eleven_below : list float :=
-  [0; 1; 2; 3; 4; 5; 6; 7; 8; 9; 10]%float.
-
-Lemma pit_rank_noclip_exceeds_one_F64 :
-  PrimFloat.ltb 1%float (pit_rank_noclip F64 KF 11%float eleven_below) = true /\
-  PrimFloat.eqb (pit_rank F64 KF 11%float eleven_below) 1%float = true.
-Proof. split; vm_compute; reflexivity. Qed.
-
-(* pinned c_ensrank: with eps > 1 the sentinel value+1 hides the first and the
-   last tie sequence: two identical single-member ensembles get F = -1 instead
-   of 1/2; the repaired scan gives 1/2.  Same for values beyond 2^53. *)
-Lemma sentinel_scan_wrong_F64 :
-  (PrimFloat.eqb (pairF_sentinel F64 KF 2 [0x1p+3] [0x1p+3]) (-1) = true /\
-   PrimFloat.eqb (pairF F64 KF 2 [0x1p+3] [0x1p+3]) 0.5 = true /\
-   PrimFloat.eqb (pairF_sentinel F64 KF 0x1p-20 [0x1p+62] [0x1p+61]) (-1) = true /\
-   PrimFloat.eqb (pairF F64 KF 0x1p-20 [0x1p+62] [0x1p+61]) 1 = true)%float.
-Proof. repeat split; vm_compute; reflexivity. Qed.
-
 (* ---- tactics used by the generated E3 correspondence files (harness/props/c10.py):
    the real-number model of the statistic / p-value at a sample, against the
    value returned by the implementation ---- *)
@@ -111,3 +91,5 @@ Ltac ad_pvalue_e3 :=
   cbv zeta;
   repeat ad_decide_if z;
   first [ interval with (i_prec 70) | interval with (i_prec 70, i_bisect z, i_depth 12) ].
+
+Print Assumptions ad_pvalue_noclip_refuted.
